@@ -74,7 +74,16 @@ func Load(path string) (*U, error) {
 		var pp *predicate.Predicate
 		var err error
 		if p.Tmp {
-			pp, err = predicate.NewTemporal(p.ID, u.times[p.N-1])
+			// the stored value keeps the spelling (zone) given in the universe file
+			var ta time.Time
+			ta, err = time.Parse(time.RFC3339Nano, p.Anchor)
+			if err != nil {
+				return nil, err
+			}
+			if !ta.Equal(u.times[p.N-1]) {
+				return nil, fmt.Errorf("predicate %q: anchor %s is not instant rank %d", p.ID, p.Anchor, p.N)
+			}
+			pp, err = predicate.NewTemporal(p.ID, ta)
 		} else {
 			pp, err = predicate.NewImmutable(p.ID)
 		}
